@@ -21,6 +21,8 @@ structure Rep where
   headN   : Nat               -- number in volume-head-NNN.img
   ckpt    : String            -- Info.Checkpoint
   rebuilding : Bool
+  srcRev  : Nat               -- during a rebuild, after the swap: the source's revision counter
+  rb      : Nat               -- rebuild phase of the harness protocol: 0 none, 1 begun, 2 reloaded, 3 promoted
 
 /-- the requests of the line protocol -/
 inductive RepOp where
@@ -43,6 +45,11 @@ inductive RepOp where
   | setMode (m : Mode)
   | setRev (n : Nat)
   | setCkpt (s : String)
+  | rbBegin (name : String)               -- AddReplica: the automatic snapshot both replicas take
+  | rbReload                              -- the rebuilt replica after the file sync: Reload without preload
+  | lunmap                                -- Server.UpdateLUNMap
+  | rbPromote                             -- VerifyRebuildReplica: mode RW, counter equalised
+  | rbEnd                                 -- the controller shuts down: every replica is closed
 
 inductive RepOut where
   | ok
@@ -54,7 +61,7 @@ namespace Rep
 
 def init (bs nb : Nat) : Rep :=
   { dd := DD.init bs nb, names := [], orphans := [], isOpen := true, mode := .init, rev := 1,
-    headN := 0, ckpt := "", rebuilding := false }
+    headN := 0, ckpt := "", rebuilding := false, srcRev := 0, rb := 0 }
 
 /-- payload of `w off len tag` at absolute unit `u` -/
 def payload (off tag : Nat) (u : Nat) : Nat := tag * 1000000 + (u - off) + 1
@@ -72,7 +79,12 @@ def step (r : Rep) : RepOp → Rep × RepOut
     if !r.isOpen || !r.inVolume off len then (r, .refused) else
     match r.mode with
     | .rw   => ({ r with dd := r.dd.write off len (payload off tag), rev := r.rev + 1 }, .ok)
-    | .wo   => ({ r with dd := r.dd.write off len (payload off tag) }, .ok)
+    | .wo   =>
+      -- rb = 2: the rebuilt replica under a controller, which widens sub-block writes with the
+      -- data of the RW replicas (equal to this replica's own image by `c07_identical`)
+      ({ r with dd := if r.rb = 2 then r.dd.widenWrite r.dd.live off len (payload off tag)
+                      else r.dd.write off len (payload off tag),
+                srcRev := if r.rb = 2 then r.srcRev + 1 else r.srcRev }, .ok)
     | .init => (r, .refused)
   | .cwrite n tag =>
     if !r.isOpen || r.mode = .init then (r, .refused) else
@@ -136,6 +148,27 @@ def step (r : Rep) : RepOp → Rep × RepOut
     if !r.isOpen || r.mode ≠ .rw then (r, .refused) else ({ r with rev := n }, .ok)
   | .setCkpt s =>
     if !r.isOpen then (r, .refused) else ({ r with ckpt := s }, .ok)
+  | .rbBegin n =>
+    if !r.isOpen || r.rb ≠ 0 || r.mode ≠ .rw || r.indexOf n ≠ 0 || r.orphans.contains n then (r, .refused) else
+    -- Controller.Start opens the (closed) replica with preload and makes it RW; AddReplica then takes
+    -- the automatic snapshot on every replica
+    ({ r with dd := (r.dd.reopen true).snapshot false, names := r.names ++ [n], headN := r.headN + 1, rb := 1 }, .ok)
+  | .rbReload =>
+    if r.rb ≠ 1 || !r.isOpen then (r, .refused) else
+    -- from here on the replica under test is the rebuilt one: the source's snapshot files, its own
+    -- head (which received every write since the common snapshot), a fresh location map
+    -- (mode WO, its own revision counter, which a WO replica does not advance)
+    ({ r with dd := (r.dd.setPunch true).reopen false, headN := 1, orphans := [], ckpt := "", rb := 2,
+              mode := .wo, srcRev := r.rev, rev := 1 }, .ok)
+  | .lunmap => if !r.isOpen then (r, .refused) else ({ r with dd := r.dd.lunmap }, .ok)
+  | .rbPromote =>
+    if r.rb ≠ 2 || !r.isOpen then (r, .refused) else
+    -- all three replicas are RW again: UpdateCheckpoint records the newest snapshot everywhere
+    ({ r with mode := .rw, rev := r.srcRev, rb := 3,
+              ckpt := match r.names.getLast? with | some n => "volume-snap-" ++ n ++ ".img" | none => "" }, .ok)
+  | .rbEnd =>
+    if r.rb = 0 then (r, .refused) else
+    ({ r with dd := r.dd.dropHoles, isOpen := false, mode := .init, rb := 0 }, .ok)
 
 def run (r : Rep) : List RepOp → Rep
   | []        => r
